@@ -29,7 +29,8 @@ use vharness::engine::{CmdOutcome, Engine};
 use vharness::{install_config, read_json};
 
 struct Dirs {
-    wal: PathBuf,      // CONFIG.wal.dir/shard-0
+    shard: usize,      // shard id the cleaner / archiver / recovery are built for
+    wal: PathBuf,      // CONFIG.wal.dir/shard-<id>
     other: PathBuf,    // a WAL directory that is NOT the configured one
     aroot: PathBuf,    // CONFIG.wal.archive_dir
     ashard: PathBuf,   // aroot/shard-0
@@ -151,7 +152,7 @@ fn apply_fault(d: &Dirs, f: &Value) {
                 let es = entries_from(&pre["entries"]);
                 let a = WalArchive {
                     header: WalArchiveHeader::new(
-                        0,
+                        d.shard,
                         pre["log"].as_u64().unwrap(),
                         es.len() as u64,
                         pre["start"].as_u64().unwrap(),
@@ -201,7 +202,7 @@ fn observe(d: &Dirs, use_other: bool) -> Value {
     if use_other {
         o["wal_other"] = list_wal(&d.other);
     }
-    let rec = WalArchiveRecovery::new(0, d.ashard.clone());
+    let rec = WalArchiveRecovery::new(d.shard, d.ashard.clone());
     let mut arch = Vec::new();
     let mut devfull = false;
     let _listed = match std::fs::read_dir(&d.ashard) {
@@ -328,11 +329,12 @@ fn run_direct(d: &Dirs, beh: &Value, out: &mut std::fs::File) {
                 let via = st["via"].as_str().unwrap_or("new");
                 let wal = d.wal.clone();
                 let other = d.other.clone();
+                let shard = d.shard;
                 let r = std::panic::catch_unwind(std::panic::AssertUnwindSafe(|| {
                     let c = match via {
-                        "new" => WalCleaner::new(0),
-                        "with_wal_dir" => WalCleaner::with_wal_dir(0, wal),
-                        "other_dir" => WalCleaner::with_wal_dir(0, other),
+                        "new" => WalCleaner::new(shard),
+                        "with_wal_dir" => WalCleaner::with_wal_dir(shard, wal),
+                        "other_dir" => WalCleaner::with_wal_dir(shard, other),
                         v => panic!("unknown via {v}"),
                     };
                     c.cleanup_up_to(kf);
@@ -464,12 +466,14 @@ fn main() {
         job["config"].get("archive_dir").and_then(|v| v.as_str()).map(|s| s.to_string())
             .unwrap_or_else(|| format!("{}/wal/archived/", root.display())),
     );
+    let shard = job.get("shard").and_then(|s| s.as_u64()).unwrap_or(0) as usize;
     let d = Dirs {
-        wal: root.join("wal").join("shard-0"),
-        other: root.join("wal-elsewhere").join("shard-0"),
-        ashard: aroot.join("shard-0"),
+        shard,
+        wal: root.join("wal").join(format!("shard-{shard}")),
+        other: root.join("wal-elsewhere").join(format!("shard-{shard}")),
+        ashard: aroot.join(format!("shard-{shard}")),
         aroot,
-        stash: root.join("stash-shard-0"),
+        stash: root.join("stash-shard"),
     };
     if std::env::var("VERIF_SHOW_PANICS").is_err() {
         std::panic::set_hook(Box::new(|_| {}));
